@@ -4,6 +4,7 @@ The attribute map of a Byron address (derivation payload present / absent, proto
 absent) is written by the real serializer — the magic as CBOR nested in a byte string — and read back by the real
 deserializer over the token model: the decoded attributes equal the original ones field by field, in particular a magic
 that is present stays present with the same value (network discrimination and the address bytes depend on it)."""
+import re
 import z3
 from engine import *
 from prove import Obligation
@@ -74,4 +75,57 @@ def obligations(ctx):
     def nat(m, info=None):
         magic = int(m.eval(z3.Int("magic"), model_completion=True).as_long()) if m is not None else 1097911063     # structural violations carry no model: testnet magic
         return "e2n_c11_byron_attributes", [[b for b in magic.to_bytes(4, "little")]]
+    ob.finish(agg, nat)
+    varnat_decode(ctx)
+
+
+def varnat_decode(ctx):
+    """'the strict stand-alone parsers reject ... unterminated variable-length pointer fields': variable_nat_decode executed from MIR
+    on every byte string of 0..3 bytes (quick; thorough: ..4): it answers None exactly when no byte with a clear high bit ends the
+    number, and otherwise the number its 7-bit groups spell (big-endian) with the count of bytes it read."""
+    P = ctx.P
+    ob = Obligation(ctx, "c11_e2_variable_nat_decode", "every byte string of 0..%d bytes" % (4 if ctx.tier == "thorough" else 3), ["variable_nat_decode"], fallback_native="e2n_c11_varnat")
+    agg = Engine(P)
+    cands = [d for d in P.fns if re.search(r"(^|::)variable_nat_decode$", d)]
+    if not cands:
+        ob.fail("variable_nat_decode not found in the MIR"); ob.finish(agg); return
+    nret = 0
+    for n in range(0, (5 if ctx.tier == "thorough" else 4)):
+        E = Engine(P, max_loop=n + 2)
+        E.U = agg.U
+        bs = [E.sym_int("byte%d" % i, "u8") for i in range(n)]
+        def mk(E=E, bs=bs):
+            for b in bs:
+                E.pc.append(z3.And(b.t >= 0, b.t <= 255))
+            return [R(VSeq([VInt(b.t, "u8") for b in bs], "vec"), "bytes")]
+        try:
+            outs = E.explore(cands[0], mk, max_paths=500)
+        except Unsupported as e:
+            ob.fail("%d bytes: cannot be executed (%s)" % (n, str(e)[:200])); continue
+        for o in outs:
+            if o.kind != "return":
+                ob.vc("%d bytes: no panic (%s %s)" % (n, o.kind, o.msg[:60]), o.pc, z3.BoolVal(False), info=dict(n=n)); continue
+            nret += 1
+            # specification: first index k whose byte has a clear high bit terminates the number
+            term = [z3.And([bs[j].t >= 128 for j in range(k)] + [bs[k].t < 128]) for k in range(n)]
+            none_spec = z3.Not(z3.Or(term)) if term else z3.BoolVal(True)
+            v = o.value
+            if v.variant == "None":
+                ob.vc("%d bytes: None is answered only for an unterminated number" % n, o.pc, none_spec, info=dict(n=n))
+            else:
+                val, cnt = VM.deref(E, v.fields[0]).fields[0].t, VM.deref(E, v.fields[0]).fields[1].t
+                cases = []
+                for k in range(n):
+                    num = z3.IntVal(0)
+                    for j in range(k + 1):
+                        num = num * 128 + (bs[j].t % 128)
+                    cases.append(z3.And(term[k], cnt == k + 1, val == num))
+                ob.vc("%d bytes: Some((value, read)) is the number spelled by the 7-bit groups up to the first terminating byte" % n, o.pc, z3.Or(cases) if cases else z3.BoolVal(False), info=dict(n=n))
+        agg.stats["paths"] += E.stats["paths"]; agg.stats["feasibility_queries"] += E.stats["feasibility_queries"]; agg.stats["functions"] |= E.stats["functions"]
+    if nret == 0:
+        ob.fail("no returning path")
+    def nat(m, info=None):
+        n = (info or {}).get("n", 0)
+        bs_ = [m.eval(z3.Int("byte%d" % i), model_completion=True).as_long() if m is not None else 0x83 for i in range(n)]
+        return "e2n_c11_varnat", [[len(bs_)]] + [[b] for b in bs_]
     ob.finish(agg, nat)
